@@ -39,6 +39,7 @@ type PropSpec struct {
 	Bounds      []string      `json:"bounds"`
 	Assumptions []string      `json:"assumptions"`
 	OutOfScope  []string      `json:"out_of_scope"`
+	ExtraDirs   []string      `json:"extra_dirs,omitempty"` // packages whose harness overlay must be present too (helpers used across packages)
 }
 
 type Config struct {
@@ -331,6 +332,9 @@ func RunProperty(cfg *Config, spec *PropSpec, known []KnownFinding) int {
 	if len(hs) == 0 {
 		fmt.Fprintf(os.Stderr, "no harness selected for %s\n", spec.ID)
 		return 2
+	}
+	for _, d := range spec.ExtraDirs {
+		dirset[d] = true
 	}
 	var dirs []string
 	for d := range dirset {
